@@ -160,18 +160,35 @@ def errno_rule(run, f, rid, settle_rid):
         if len(ev) != 1 or len(ww) != 1:
             why.append("expected one EventLoops::%s submission and one wait on its slot" % nm)
         else:
-            # errno = -result on the negative edge
+            # errno = -result on the negative edge; judged on the wrapper as one unit, so that the mapping cut out into a
+            # helper (`io_uring_result_to_libc(r)`, generic over the result type: `r < T::from(0)`, `-r` are trait calls
+            # there) reads like the inline form
+            ub = inl(f, b)
+            ucfg, udu = Cfg(ub), DefUse(ub)
+            uww = find_calls(ub, callee_is("std::sync::Condvar::wait_while"))
             neg_ok = False
-            for (x, t) in se:
-                v = backward(b, t["args"][0], du, at=(x, "term"), through_calls="pass")
-                if any(y == ww[0][0] for (y, _t) in v.calls) and ("Neg" in [d for (k, d, _s) in v.ops if k == "unop"] or "Sub" in v.binops() or "SubWithOverflow" in v.binops()):
-                    # dominated by `result < 0`
-                    for blk in b.blocks:
-                        for s in blk["stmts"]:
-                            if s["k"] == "assign" and s["rhs"]["k"] == "binop" and s["rhs"]["op"] == "Lt" and op_const(s["rhs"]["b"]) == 0:
-                                br = bool_branch(b, cfg, du, s["lhs"]["l"], [blk["id"]])
-                                if br and cfg.dominates(br[0], x):
-                                    neg_ok = True
+            tests = []      # (block whose successors are the branch, local holding `result < 0`)
+            for blk in ub.blocks:
+                for s_ in blk["stmts"]:
+                    if s_["k"] == "assign" and s_["rhs"]["k"] == "binop" and s_["rhs"]["op"] == "Lt" and op_const(s_["rhs"]["b"]) == 0:
+                        tests.append((blk["id"], s_["lhs"]["l"]))
+            for (x, t) in ub.calls():
+                if norm(t.get("orig") or t.get("callee") or "").endswith("PartialOrd::lt") and len(t["args"]) == 2 and "'0'" in repr(describe_val(ub, udu, t["args"][1])) and "From::from" in repr(describe_val(ub, udu, t["args"][1])):
+                    tests.append((t["target"], t["dest"]["l"]))
+            for (x, t) in find_calls(ub, callee_is("syscall::unix::set_errno")):
+                v = backward(ub, t["args"][0], udu, at=(x, "term"), through_calls="pass")
+                negated = "Neg" in [d for (k, d, _s) in v.ops if k == "unop"] or "Sub" in v.binops() or "SubWithOverflow" in v.binops() or any(norm(tt.get("orig") or tt.get("callee") or "").endswith("Neg::neg") for (_y, tt) in v.calls)
+                from_slot = uww and any(y == uww[0][0] for (y, _t) in v.calls)
+                for (y, tt) in v.calls:
+                    # the slice stops at a trait call it does not know to be value-preserving: follow `-r` spelled Neg::neg(r)
+                    if norm(tt.get("orig") or tt.get("callee") or "").endswith("Neg::neg") and uww:
+                        v2 = backward(ub, tt["args"][0], udu, at=(y, "term"), through_calls="pass")
+                        from_slot = from_slot or any(z == uww[0][0] for (z, _t) in v2.calls)
+                if from_slot and negated:
+                    for (tb, tl) in tests:
+                        br = bool_branch(ub, ucfg, udu, tl, [tb])
+                        if br and ucfg.dominates(br[0], x):
+                            neg_ok = True
             if not neg_ok:
                 why.append("a negative completion is not mapped to errno = -result")
             # no narrowing `as` cast on the result path
